@@ -496,6 +496,7 @@ Proof.
   - (* update *)
     unfold update_attribute in E. match type of E with (if ?b then _ else _) = _ => destruct b eqn:C end;
       [|discriminate].
+    destruct (sp_inner sp); [discriminate|].
     destruct (find_rec (a, n, ov) (s_recs s)) as [cur|] eqn:F; [|discriminate].
     destruct (a_type cur =? oty); inversion E; subst. clear E.
     apply find_rec_some in F. destruct F as [Hcur Hk].
@@ -511,13 +512,13 @@ Proof.
     apply find_rec_some in F. destruct F as [Hcur Hk].
     apply inv_update_exp; [split; auto|exact Hcur].
   - (* delete *)
-    unfold delete_attribute in E. destruct (may_remove s c n); [|discriminate].
+    unfold delete_attribute in E. destruct (may_remove_raw s c n sp); [|discriminate].
     match type of E with context [filter ?p (s_recs s)] =>
       destruct (del_filter true p s Hc) as [I1 [I2 [I3 _]]]; destruct (filter p (s_recs s)) end;
       [discriminate|]. injection E as <-. cbn [fold_left] in I1, I2, I3.
     split; [exact I1|]. intros r Hr. apply I2 in Hr. rewrite I3. apply Hn. tauto.
   - (* delete distinct *)
-    unfold delete_attribute in E. destruct (may_remove s c n); [|discriminate].
+    unfold delete_attribute in E. destruct (may_remove_raw s c n sp); [|discriminate].
     match type of E with context [filter ?p (s_recs s)] =>
       destruct (del_filter true p s Hc) as [I1 [I2 [I3 _]]]; destruct (filter p (s_recs s)) end;
       [discriminate|]. injection E as <-. cbn [fold_left] in I1, I2, I3.
@@ -563,22 +564,26 @@ Qed.
     accepts any caller with an account when the name does not exist; then it changes nothing. *)
 Definition writes_as_owner (s : state) (o : op) : Prop :=
   match o with
-  | OAdd c _ n _ _ _ | OUpdate c _ n _ _ _ _ | OUpdateExp c _ n _ _
-  | ODelete c _ n | ODeleteDistinct c _ n _ | ODeleteName c n => s_owner s n = Some c
+  | OAdd c _ n _ _ _ _ | OUpdate c _ n _ _ _ _ _ | OUpdateExp c _ n _ _ _
+  | ODelete c _ n _ | ODeleteDistinct c _ n _ _ | ODeleteName c n => s_owner s n = Some c
   | OPurge c n => s_owner s n = Some c \/ (s_owner s n = None /\ fst (step s o) = s)
   | _ => True
   end.
 
-Lemma delete_owner : forall s c a n ov s',
-  named s -> delete_attribute s c a n ov = Some s' -> s_owner s n = Some c.
+Lemma delete_owner : forall s c a n ov sp s',
+  named s -> delete_attribute s c a n ov sp = Some s' -> s_owner s n = Some c.
 Proof.
-  intros s c a n ov s' Hn E. unfold delete_attribute in E.
-  destruct (may_remove s c n) eqn:M; [|discriminate].
+  intros s c a n ov sp s' Hn E. unfold delete_attribute in E.
+  destruct (may_remove_raw s c n sp) eqn:M; [|discriminate].
   match type of E with context [filter ?p (s_recs s)] => destruct (filter p (s_recs s)) as [|x t] eqn:Fl end;
     [discriminate|].
   assert (Hx : In x (x :: t)) by (left; reflexivity). rewrite <- Fl in Hx. apply filter_In in Hx.
-  destruct Hx as [Hx Hp]. apply andb_true_iff in Hp. destruct Hp as [Hp _].
+  destruct Hx as [Hx Hp]. apply andb_true_iff in Hp. destruct Hp as [Hp Hsp].
+  apply andb_true_iff in Hp. destruct Hp as [Hp _].
   apply andb_true_iff in Hp. destruct Hp as [_ Hp]. apply Z.eqb_eq in Hp.
+  (* only the canonical spelling matches a stored name, and then the gate is the ordinary one *)
+  apply andb_true_iff in Hsp. destruct Hsp as [_ Hsp]. apply Z.eqb_eq in Hsp. subst sp.
+  change (may_remove_raw s c n 0) with (may_remove s c n) in M.
   apply may_remove_owner; auto. rewrite <- Hp. apply Hn. exact Hx.
 Qed.
 
@@ -607,9 +612,9 @@ Qed.
 (** When may a present attribute be absent after a step. *)
 Definition justified (s : state) (o : op) (r : attr) : Prop :=
   match o with
-  | ODelete c a n => a_acct r = a /\ a_name r = n /\ s_owner s n = Some c
-  | ODeleteDistinct c a n v => a_acct r = a /\ a_name r = n /\ a_val r = v /\ s_owner s n = Some c
-  | OUpdate c a n ov _ _ _ => akey r = (a, n, ov) /\ s_owner s n = Some c
+  | ODelete c a n _ => a_acct r = a /\ a_name r = n /\ s_owner s n = Some c
+  | ODeleteDistinct c a n v _ => a_acct r = a /\ a_name r = n /\ a_val r = v /\ s_owner s n = Some c
+  | OUpdate c a n ov _ _ _ _ => akey r = (a, n, ov) /\ s_owner s n = Some c
   | ODeleteName c n | OPurge c n => a_name r = n /\ s_owner s n = Some c
   | OBlock dt => exists e, a_exp r = Some e /\ e < s_now s + dt
   | _ => False
@@ -625,16 +630,17 @@ Proof.
   - apply key_eqb_neq in K. apply (Ha r); [|reflexivity]. right. apply In_remove_key. auto.
 Qed.
 
-Lemma delete_justified : forall s c a n ov s' r,
-  inv s -> delete_attribute s c a n ov = Some s' -> In r (s_recs s) -> absent r s' ->
+Lemma delete_justified : forall s c a n ov sp s' r,
+  inv s -> delete_attribute s c a n ov sp = Some s' -> In r (s_recs s) -> absent r s' ->
   a_acct r = a /\ a_name r = n /\ match ov with Some v => a_val r = v | None => True end.
 Proof.
-  intros s c a n ov s' r [Hc Hn] E Hr Ha. unfold delete_attribute in E.
-  destruct (may_remove s c n); [|discriminate].
+  intros s c a n ov sp s' r [Hc Hn] E Hr Ha. unfold delete_attribute in E.
+  destruct (may_remove_raw s c n sp); [|discriminate].
   match type of E with context [filter ?p (s_recs s)] =>
     destruct (del_filter true p s Hc) as [_ [I2 _]]; destruct (filter p (s_recs s)); [discriminate|];
     destruct (p r) eqn:P end.
-  - apply andb_true_iff in P. destruct P as [P Pv]. apply andb_true_iff in P. destruct P as [Pa Pn].
+  - apply andb_true_iff in P. destruct P as [P _].
+    apply andb_true_iff in P. destruct P as [P Pv]. apply andb_true_iff in P. destruct P as [Pa Pn].
     apply Z.eqb_eq in Pa, Pn. repeat split; auto. destruct ov; auto. apply Z.eqb_eq. exact Pv.
   - exfalso. injection E as <-. cbn [fold_left] in I2. apply (Ha r); [|reflexivity]. apply I2. auto.
 Qed.
@@ -669,6 +675,7 @@ Proof.
       inversion E; subst. eapply put_keeps; eauto.
   - unfold update_attribute in E. match type of E with (if ?b then _ else _) = _ => destruct b end;
       [|discriminate].
+    destruct (sp_inner sp); [discriminate|].
     destruct (find_rec (a, n, ov) (s_recs s)) as [cur|] eqn:F; [|discriminate].
     destruct (a_type cur =? oty); inversion E; subst. clear E.
     apply find_rec_some in F. destruct F as [Hcur Hk].
@@ -684,8 +691,8 @@ Proof.
     + apply key_eqb_eq in K. apply (Ha (with_exp cur e)); [left; reflexivity|].
       change (akey (with_exp cur e)) with (akey cur). congruence.
     + apply key_eqb_neq in K. apply (Ha r); [|reflexivity]. right. apply In_remove_key. auto.
-  - destruct (delete_justified s c a n None s' r Hinv E Hr Ha) as [H1 [H2 _]]. auto.
-  - destruct (delete_justified s c a n (Some v) s' r Hinv E Hr Ha) as [H1 [H2 H3]]. auto.
+  - destruct (delete_justified s c a n None sp s' r Hinv E Hr Ha) as [H1 [H2 _]]. auto.
+  - destruct (delete_justified s c a n (Some v) sp s' r Hinv E Hr Ha) as [H1 [H2 H3]]. auto.
   - pose proof (purge_justified s c n s' r Hc E Hr Ha) as Hname. split; [exact Hname|].
     destruct Hown as [Ho|[Ho _]]; [exact Ho|]. exfalso. apply (Hn r Hr). rewrite Hname. exact Ho.
   - destruct (dt <? 0); inversion E; subst. clear E. unfold sweep in Ha.
@@ -721,8 +728,8 @@ Lemma only_owner_writes_all : forall t0 accts ops o,
   let s := run t0 accts ops in
   snd (step s o) = true ->
   match o with
-  | OAdd c _ n _ _ _ | OUpdate c _ n _ _ _ _ | OUpdateExp c _ n _ _
-  | ODelete c _ n | ODeleteDistinct c _ n _ | ODeleteName c n => s_owner s n = Some c
+  | OAdd c _ n _ _ _ _ | OUpdate c _ n _ _ _ _ _ | OUpdateExp c _ n _ _ _
+  | ODelete c _ n _ | ODeleteDistinct c _ n _ _ | ODeleteName c n => s_owner s n = Some c
   | OPurge c n => s_owner s n = Some c \/ (s_owner s n = None /\ fst (step s o) = s)
   | _ => True
   end.
@@ -734,9 +741,9 @@ Lemma disappears_only_when_all : forall t0 accts ops o r,
   In r (s_recs s) ->
   (forall r', In r' (s_recs s') -> akey r' <> akey r) ->
   match o with
-  | ODelete c a n => a_acct r = a /\ a_name r = n /\ s_owner s n = Some c
-  | ODeleteDistinct c a n v => a_acct r = a /\ a_name r = n /\ a_val r = v /\ s_owner s n = Some c
-  | OUpdate c a n ov _ _ _ => akey r = (a, n, ov) /\ s_owner s n = Some c
+  | ODelete c a n _ => a_acct r = a /\ a_name r = n /\ s_owner s n = Some c
+  | ODeleteDistinct c a n v _ => a_acct r = a /\ a_name r = n /\ a_val r = v /\ s_owner s n = Some c
+  | OUpdate c a n ov _ _ _ _ => akey r = (a, n, ov) /\ s_owner s n = Some c
   | ODeleteName c n | OPurge c n => a_name r = n /\ s_owner s n = Some c
   | OBlock dt => exists e, a_exp r = Some e /\ e < s_now s + dt
   | _ => False
